@@ -117,6 +117,15 @@ BREAKING = {
                 }""")),
     "poll-no-final-chance-timer": (["C08"], ["poll.after_local_close"],
         sub("src/stream_dispatch.rs", "            if self.state.is_local_fin_or_later() {\n                const SHUTDOWN_FINAL_CHANCE_DELAY", "            if self.state.is_local_fin_or_later() && self.user_tx_segments.is_empty() {\n                const SHUTDOWN_FINAL_CHANCE_DELAY")),
+    # session 5: remove_up_to_ack stages under Verus (every queue length), guard unit
+    "txseg-cleanup-forgets-len-bytes": (["C01"], ["txseg.ack_cleanup"],
+        sub("src/stream_tx_segments.rs", "            payload_size += segment.payload_size;\n            self.len_bytes -= segment.payload_size;\n            self.snd_una += 1;", "            payload_size += segment.payload_size;\n            self.snd_una += 1;")),
+    "txseg-cleanup-pops-lost-segments": (["C06"], ["txseg.ack_cleanup"],
+        sub("src/stream_tx_segments.rs", "            if !segment.is_delivered {\n                break;", "            if !segment.is_delivered && !segment.is_lost {\n                break;")),
+    "txseg-sack-bit-double-count": (["C06"], ["txseg.sack_bit"],
+        sub("src/stream_tx_segments.rs", "if !segment.is_delivered && is_sacked {", "if is_sacked {")),
+    "guard-drop-does-not-send": (["C12"], ["guards.drop"],
+        sub("src/utils.rs", "let _ = tx.send(msg);", "let _ = msg;")),
 }
 
 HARMLESS = {
@@ -269,6 +278,12 @@ HARMLESS = {
                 MatchSynWithAccept::Matched => continue,""")),
     "poll-final-chance-extra-trace": (["C08"],
         sub("src/stream_dispatch.rs", "            if self.state.is_local_fin_or_later() {\n                const SHUTDOWN_FINAL_CHANCE_DELAY", "            if self.state.is_local_fin_or_later() {\n                trace!(\"arming the final-chance timer\");\n                const SHUTDOWN_FINAL_CHANCE_DELAY")),
+    # session 5
+    "reorder-cleanup-loop-remove-up-to-ack": (["C06"],
+        sub("src/stream_tx_segments.rs", "            removed += 1;\n            payload_size += segment.payload_size;\n            self.len_bytes -= segment.payload_size;\n            self.snd_una += 1;\n            self.segments.pop_front().unwrap();",
+            "            let size = segment.payload_size;\n            self.snd_una += 1;\n            self.len_bytes -= size;\n            payload_size += size;\n            removed += 1;\n            self.segments.pop_front();")),
+    "reorder-sack-closure-counters": (["C06"],
+        sub("src/stream_tx_segments.rs", "                        newly_sacked_segment_count += 1;\n                        newly_sacked_byte_count += segment.payload_size;", "                        newly_sacked_byte_count += segment.payload_size;\n                        newly_sacked_segment_count += 1;")),
 }
 
 
